@@ -35,6 +35,9 @@ func system(n int, mask uint, classes []string, pauses int, drifts int, celProbe
 			if sliced {
 				// the phases' objects live in ObjectSlices; a lagging cache may hide one from a pass
 				for i := range ps {
+					if withPrev && i > 0 {
+						break // only the first phase is sliced: the later ones have inline objects to write
+					}
 					name := fmt.Sprintf("r1-slice-%d", i)
 					w.MustCreate(&corev1alpha1.ObjectSlice{ObjectMeta: metav1.ObjectMeta{Name: name, Namespace: world.NS}, Objects: ps[i].Objects})
 					ps[i].Slices, ps[i].Objects = []string{name}, nil
